@@ -248,6 +248,17 @@ func (conn *Tunnel) requestTunnel(data cemi.Message) error {
 	if !conn.config.UseTCP {
 		// The sequence number is only important in non-TCP mode.
 		seqNumber = conn.seqNumber
+	} else {
+		// There is no acknowledgement to wait for in TCP mode, so check here that the connection
+		// server has not terminated; it closes the acknowledgement channel when it does.
+		select {
+		case _, open := <-conn.ack:
+			if !open {
+				return errors.New("connection server has terminated")
+			}
+
+		default:
+		}
 	}
 
 	req := &knxnet.TunnelReq{
